@@ -152,6 +152,9 @@ func propC04(run *Run, n int) {
 		if r.Chance(1, 25) {
 			addC04Chained(run, r, cfg)
 		}
+		if r.Chance(1, 20) {
+			addC04ChainedTyped(run, r, cfg)
+		}
 	}
 }
 
@@ -208,6 +211,64 @@ func addC04Chained(run *Run, r *Rng, cfg GenCfg) {
 			run.Count("opts:chained-patch-results")
 			run.Add(c)
 		}
+	}
+}
+
+// addC04ChainedTyped: Equals whose receiver (or argument) is a document RETURNED BY Patch under SET / MULTISET — its array
+// nodes carry the Go types jsonSet / jsonMultiset — compared under the same or ANOTHER reading (none, SET, MULTISET) with a
+// plain document. Such values are outside the property's quantifier (what a typed node means under another reading is not
+// specified; the unchanged code answers by the receiver's Go type), so the cases are TIED to the model's `equals` on the
+// typed encodings and not judged by the oracle.
+func addC04ChainedTyped(run *Run, r *Rng, cfg GenCfg) {
+	a := cfg.Arr(r, 0)
+	b := cfg.Mutate(r, a, 2)
+	if r.Chance(1, 2) {
+		a, b = VObj("k", a), VObj("k", b)
+	}
+	o1 := OptSetO
+	if r.Chance(1, 2) {
+		o1 = OptMset
+	}
+	cdoc := b.Clone()
+	permuteDeep(r, cdoc, r.Chance(1, 2))
+	aw, bw, cw := a.Wire(), b.Wire(), cdoc.Wire()
+	type obs struct {
+		o           OptSet
+		pw, eq, eqr string
+	}
+	var all []obs
+	res, _ := safely(func() string {
+		an := mustNode(aw)
+		d := an.Diff(mustNode(bw), o1.Go()...)
+		pn, err := mustNode(aw).Patch(d)
+		if err != nil || pn == nil {
+			return "done"
+		}
+		pw := jd.VerifEncodeNode(pn)
+		for _, o2 := range []OptSet{OptNone, OptSetO, OptMset} {
+			cn := mustNode(cw)
+			all = append(all, obs{o2, pw, boolWire(pn.Equals(cn, o2.Go()...)), boolWire(cn.Equals(pn, o2.Go()...))})
+		}
+		return "done"
+	})
+	if res == "panic" {
+		return
+	}
+	for _, x := range all {
+		c := Case{Recipe: Recipe{"c04t", []string{x.o.Wire(), x.pw, cw}}, Desc: map[string]string{"a": x.pw, "b": cw, "options": x.o.Name(), "how": "receiver returned by Patch under " + o1.Name() + " (typed array nodes), compared under " + x.o.Name() + " (tie only)"}}
+		c.Nontrivial = x.pw != cw
+		c.Sig = "chained-typed|" + x.o.Wire() + "|" + x.pw + "|" + cw
+		c.Probes = append(c.Probes,
+			Probe{Kind: "corr", Rel: "Equals = equals model", Line: fmt.Sprintf("equals %s %s %s", x.o.Wire(), x.pw, cw), Want: x.eq},
+			Probe{Kind: "corr", Rel: "Equals = equals model", Line: fmt.Sprintf("equals %s %s %s", x.o.Wire(), cw, x.pw), Want: x.eqr})
+		// symmetry is claimed for every pair of values, also for one that Patch returned
+		sym := "ok"
+		if x.eq != x.eqr {
+			sym = fmt.Sprintf("fail Equals is not symmetric: p.Equals(c)=%s, c.Equals(p)=%s for p returned by Patch under %s, compared under %s", x.eq, x.eqr, o1.Name(), x.o.Name())
+		}
+		c.Probes = append(c.Probes, Probe{Kind: "direct", Rel: "C04 Equals is symmetric also when one side is a document returned by Patch (typed array nodes)", Want: sym})
+		run.Count("opts:chained-typed-receiver")
+		run.Add(c)
 	}
 }
 
@@ -1502,7 +1563,20 @@ func init() {
 	recipes["c04x"] = func(run *Run, a []string) {
 		c := Case{Recipe: Recipe{"c04x", a}, Nontrivial: true, Sig: "chained|" + a[0] + "|" + a[1]}
 		c.Probes = append(c.Probes, Probe{Kind: "oracle", Rel: "C04 Equals = advertised equivalence (hash-free spec), symmetric, reflexive",
-			Line: fmt.Sprintf("c04 %s %s %s %s %s %s", OptNone.Wire(), a[0], a[1], a[2], a[3], a[4])})
+			Line: fmt.Sprintf("c04 %s %s %s %s %s %s", func() string {
+				if len(a) > 5 {
+					return a[5]
+				}
+				return OptNone.Wire()
+			}(), a[0], a[1], a[2], a[3], a[4])})
+		run.Add(c)
+	}
+	recipes["c04t"] = func(run *Run, a []string) {
+		o := mustOpts(a[0])
+		c := Case{Recipe: Recipe{"c04t", a}, Nontrivial: true, Sig: "chained-typed|" + a[0] + "|" + a[1] + "|" + a[2]}
+		c.Probes = append(c.Probes,
+			Probe{Kind: "corr", Rel: "Equals = equals model", Line: fmt.Sprintf("equals %s %s %s", a[0], a[1], a[2]), Want: implEquals(o, a[1], a[2])},
+			Probe{Kind: "corr", Rel: "Equals = equals model", Line: fmt.Sprintf("equals %s %s %s", a[0], a[2], a[1]), Want: implEquals(o, a[2], a[1])})
 		run.Add(c)
 	}
 	recipes["c05"] = func(run *Run, a []string) { addC05Case(run, mustOpts(a[0]), "corpus", mustVal(a[1]), mustVal(a[2])) }
